@@ -6,7 +6,9 @@ EXTENDS Integers, Sequences, FiniteSets, TLC, Json, IOUtils
 VARIABLE st
 Fabs == {"A", "B", "C", "D", "E", "EN"}
 Regimes == {4, 6}
-OriClasses == {"generic", "aligned", "near1e-8", "near1e-12", "near1e-15", "near1e-17", "dead", "single"}
+\* "mixed": generic and axis-aligned grains alternate in storage order (a grain with no resolved shear stored
+\* after a rotating one)
+OriClasses == {"generic", "aligned", "mixed", "near1e-8", "near1e-12", "near1e-15", "near1e-17", "dead", "single"}
 VolClasses == {"uniform", "zeros", "dominant"}
 FlowClasses == {"ss_xz", "ss_yx", "ss_yz", "pure_xy", "pure_xz", "axi_c", "axi_e", "gen3d", "trace", "rot", "zero"}
 CONSTANT Sizes
